@@ -82,6 +82,10 @@ func (r *vfC15Rec) emit(m map[string]any) int64 {
 	}
 	r.mu.Unlock()
 	switch {
+	case r.perturb == 3 && act < 4:
+		// delay injection: the goroutine stays where it is - often inside a critical section - long
+		// enough for the others to pile up behind it (lock convoys, full channels, chains of waiters)
+		time.Sleep(time.Duration(100+act*300) * time.Microsecond)
 	case r.perturb >= 1 && act < 3:
 		runtime.Gosched()
 	case r.perturb >= 2 && act == 3:
@@ -635,11 +639,11 @@ func TestVerifC15Stress(t *testing.T) {
 	kept := 0
 	for i := 0; i < iters; i++ {
 		it := &vfC15Iter{seed: vfh.Seed()*1000003 + int64(i)}
-		ok := it.run(i % 3)
+		ok := it.run(i % 4)
 		if !ok {
 			buf := make([]byte, 1<<20)
 			n := runtime.Stack(buf, true)
-			res.AddMismatch(vfh.Mismatch{Class: "stall", What: "scenario did not finish within 20 s (possible deadlock)", Walk: i, Step: len(it.rec.evs), Got: vfC15Trunc(string(buf[:n]), 12000), Cfg: map[string]any{"seed": it.seed, "perturb": i % 3}})
+			res.AddMismatch(vfh.Mismatch{Class: "stall", What: "scenario did not finish within 20 s (possible deadlock)", Walk: i, Step: len(it.rec.evs), Got: vfC15Trunc(string(buf[:n]), 12000), Cfg: map[string]any{"seed": it.seed, "perturb": i % 4}})
 			res.Count(1, 0)
 			return // goroutines of the stalled scenario are still alive: stop here
 		}
@@ -653,7 +657,7 @@ func TestVerifC15Stress(t *testing.T) {
 		}
 		bad := it.check()
 		for _, b := range bad {
-			res.AddMismatch(vfh.Mismatch{Class: b[0], What: b[1], Walk: i, Step: -1, Cfg: map[string]any{"seed": it.seed, "perturb": i % 3}, Prefix: it.events()})
+			res.AddMismatch(vfh.Mismatch{Class: b[0], What: b[1], Walk: i, Step: -1, Cfg: map[string]any{"seed": it.seed, "perturb": i % 4}, Prefix: it.events()})
 		}
 		if tracePath != "" && (kept < traceKeep || len(bad) > 0) {
 			kept++
